@@ -213,7 +213,6 @@ func handlePayload(h *Handler, errResp errorResponder, p dataPayload, e xmlstrea
 		}))
 		return err
 	}
-	conn.seq++
 
 	conn.readLock.Lock()
 	defer conn.readLock.Unlock()
@@ -240,6 +239,9 @@ func handlePayload(h *Handler, errResp errorResponder, p dataPayload, e xmlstrea
 	if err != nil {
 		return err
 	}
+	// Only a packet that was accepted uses up its sequence number; a packet that
+	// was refused above may be sent again.
+	conn.seq++
 
 	iq, ok := errResp.(stanza.IQ)
 	if e != nil && ok {
